@@ -194,7 +194,15 @@ def register(props):
                 "channel, an unsigned integer above MaxInt64) for Unserialize on the raw form and for Validate and Serialize on the native form; "
                 "35 % of the properties (60 % inside one-of members) carry display data (a named property's errors are re-wrapped on a "
                 "code path of their own); half of the one-property objects are written in the single-property shorthand (the value of "
-                "the property instead of a map) at any depth, in the raw form. "
+                "the property instead of a map) at any depth, in the raw form; integer and int-enum map keys - with units (bytes, seconds) "
+                "and without - are written, 60 % of the time, as a TEXT that is not the decimal text of the key's value ('01', '+1', ' 1', "
+                "'1kB', '2 kilobytes', '1m30s'): the expected segment of a fault below such a key is the key AS WRITTEN in the value at "
+                "hand (the raw text for Unserialize, the converted key for Validate / Serialize); 12 % of the properties are DISABLED "
+                "(half of them without a stated reason), absent from the valid input, and 'the disabled property is used' is a "
+                "corruption of its own (Unserialize; path = the property); a blank text is among the wrong-type corruptions of every "
+                "number and bool. EVERY call of a case is evaluated TWICE on the same schema instance in the same process - the whole "
+                "list, then the whole list again - and an error that differs between the two evaluations is reported as such "
+                "(history-independence of error paths: an error value shared between calls and extended in place accumulates segments). "
                 "c17struct: the same machinery on STRUCT-MAPPED objects (NewStructMappedObjectSchema[T] and [*T] over the struct family "
                 "of xstruct_types.go - scalar, pointer, nested struct, pointer-to-struct, slices / maps of structs and of pointers, "
                 "embedded struct, `any` and map-based members, through scopes and references; every property id is a json tag that "
